@@ -86,3 +86,67 @@ Example C16_example :
   /\ (exists e, read_root ((4, SGood [RPlain (Some 1)] []) :: fs)%N 4%N = inr e)
   /\ read_root [(1, SGood [RPlain (Some 2)] []); (2, SGood [RPlain (Some 1)] [])]%N 1%N = inl EDoubleInclusion.
 Proof. vm_compute. split; [reflexivity|]. split; [eexists; reflexivity | reflexivity]. Qed.
+
+(** *** The reader accepts a hierarchy exactly when it is declaratively valid — for ALL file systems
+    and roots (the per-case comparison [sc_obs_invalid = negb (spec_valid …)] of [check_c16] is the
+    same statement about the real program's observed verdict).  [spec_valid] (Spec/C16.v): unfold the
+    reference graph from the root as a tree; every referenced file resolves and parses and no suite
+    file occurs twice.  Proved at equal fuel by induction, relating the reader's [visited] set to the
+    part of the tree already unfolded (Proofs/SuiteValid.v). *)
+From Exactly Require Import Proofs.SuiteValid.
+
+Theorem C16_reader_accepts_iff_valid : forall fs root,
+  (exists h, read_root fs root = inr h) <-> spec_valid fs root = true.
+Proof. exact reader_accepts_iff_valid. Qed.
+Print Assumptions C16_reader_accepts_iff_valid.
+
+(** The accepted hierarchy IS the unfolding: its suites in pre-order ([preorder_paths]: a suite, then
+    the suites it lists, in listing order) are the unfolded tree, and every suite file occurs once. *)
+Theorem C16_accepted_is_unfolding : forall fs root h,
+  read_root fs root = inr h ->
+  unfold (S (length fs)) fs root = Some (preorder_paths h) /\ NoDup (preorder_paths h).
+Proof. exact accepted_is_unfolding. Qed.
+Print Assumptions C16_accepted_is_unfolding.
+
+Theorem C16_valid_is_accepted : forall fs root l,
+  unfold (S (length fs)) fs root = Some l -> NoDup l ->
+  exists h, read_root fs root = inr h /\ preorder_paths h = l.
+Proof. exact valid_is_accepted. Qed.
+Print Assumptions C16_valid_is_accepted.
+
+(** INVALID_SUITE is reported exactly for the declaratively invalid hierarchies, with either reporter. *)
+Theorem C16_run_invalid_iff_not_valid : forall rep fs root outcome,
+  run_invalid (run_suite rep fs root outcome) = negb (spec_valid fs root).
+Proof. exact run_invalid_iff_not_valid. Qed.
+Print Assumptions C16_run_invalid_iff_not_valid.
+
+(** The verdict of the specification does not depend on the fuel that totalises [unfold]: every fuel
+    above the number of files gives the verdict of [spec_valid], so "invalid" always has a real reason
+    (unresolvable / unparsable file, repeated file, cycle), never the fuel running out by accident. *)
+Theorem C16_spec_valid_fuel_independent : forall fs root n,
+  length fs < n ->
+  match unfold n fs root with Some l => nodupb l | None => false end = spec_valid fs root.
+Proof. exact spec_valid_fuel_independent. Qed.
+Print Assumptions C16_spec_valid_fuel_independent.
+
+(** "The check predicate holds on the model" (built by a separate pass; proofs in Proofs/PredOnModelC16.v): the boolean
+    predicate the check evaluates on OBSERVED behaviour is true of the model's own output for all inputs, and
+    correspondence on an input implies the property on that input. *)
+From Exactly Require Import Proofs.PredOnModelC16.
+(** For every reporter, file system, root and table of case outcomes: the check evaluated on the
+    model's own observation ([obs_of_model_c16]: exit code, INVALID flag, final OK / ERROR identifier,
+    processed and executed cases, junit counters and children of [run_suite] and the reporters) is
+    (true, true).  Unconditional: the equivalence of the reader with [spec_valid]
+    ([C16_reader_accepts_iff_valid] above) is used inside the proof. *)
+Theorem C16_check_predicate_holds_on_model : forall rep fs root outcomes,
+  check_c16 (obs_of_model_c16 rep fs root outcomes) = (true, true).
+Proof. exact check_c16_on_model. Qed.
+Print Assumptions C16_check_predicate_holds_on_model.
+
+(** For EVERY case: when the correspondence half of the check is true, so is the property half
+    (the correspondence half compares every field the property half reads, including the progress
+    reporter's final identifier). *)
+Theorem C16_correspondence_implies_property : forall c,
+  fst (check_c16 c) = true -> snd (check_c16 c) = true.
+Proof. exact corr_implies_property_c16. Qed.
+Print Assumptions C16_correspondence_implies_property.
